@@ -215,6 +215,17 @@ impl StepExec {
             .collect()
     }
 
+    /// As `step`, but without first yielding to the runtime: tasks the code under test spawned
+    /// (e.g. the rollback task of a dropped permit) do not get polled before the chosen activity.
+    pub async fn step_without_runtime_turn(&mut self) -> Result<Step, Stall> {
+        let runnable = self.runnable();
+        if runnable.is_empty() {
+            return Ok(Step::Quiescent);
+        }
+        let i = runnable[ctx::choose("sched", runnable.len())];
+        self.run_activity(i).await
+    }
+
     /// Run one scheduling step (choice stream picks among runnable activities).
     pub async fn step(&mut self) -> Result<Step, Stall> {
         // Let runtime-spawned helpers (sqlx return_to_pool, permit rollback) make progress.
@@ -331,6 +342,27 @@ pub fn block_on_seeded<T>(seed: u64, body: impl Future<Output = T>) -> T {
     drop(local);
     rt.shutdown_timeout(Duration::from_millis(200));
     out
+}
+
+/// Number of tasks alive on the current runtime (spawned by the code under test or by sqlx).
+pub fn alive_runtime_tasks() -> usize {
+    tokio::runtime::Handle::current().metrics().num_alive_tasks()
+}
+
+/// Let the runtime run until at most `baseline` spawned tasks are alive (all helper tasks the
+/// code under test spawned have finished). Returns false on watchdog expiry.
+pub async fn drain_runtime_tasks(baseline: usize, watchdog: Duration) -> bool {
+    let t0 = std::time::Instant::now();
+    loop {
+        tokio::task::yield_now().await;
+        if alive_runtime_tasks() <= baseline {
+            return true;
+        }
+        if t0.elapsed() > watchdog {
+            return false;
+        }
+        tokio::time::sleep(Duration::from_micros(100)).await;
+    }
 }
 
 /// A harness gate: a voluntary scheduling point. With probability 1/den it parks once (waking
